@@ -26,6 +26,10 @@ fixed("C04", "e555bbd", ["c04:%s:ONESHOT:%s:stall" % (n, o) for n in ("tcp", "un
       "EPOLLONESHOT: a write event that cannot flush the whole backlog leaves the descriptor disarmed; the rest is never sent")
 fixed("C04", "75916f8", ["c04:%s:LT:%s:stall" % (n, o) for n in ("tcp", "unix") for o in ("onopen", "regap")],
       "LT/ONESHOT: data written inside OnOpen (or in the gap before EPOLL_CTL_ADD) is cached with write interest marked armed although epoll_ctl(MOD) failed; it never drains")
+fixed("C04", "73f2a32", ["c04:%s:%s:%s:spin-no-progress" % (n, m, o) for n in ("tcp", "unix") for m in ("LT", "ET", "ONESHOT") for o in ("onopen", "regap", "ondata", "foreign", "timer", "onclose-other", "dialcb")],
+      "Sendfile of an empty file (or one positioned at its end) behind a backlog queues an entry of zero bytes; flush loops on it forever holding the connection mutex (op kind sendfile-empty)")
+fixed("C04", "48d3bb7", ["c04:tcp:LT:dialcb:stall", "c04:tcp:ONESHOT:dialcb:stall", "c04:unix:ONESHOT:dialcb:stall"],
+      "a backlog written inside the DialAsync callback never drains: the poller switches the dialed connection to read-only events after the callback unconditionally (tcp), or leaves the write flag set after a first write event that found nothing to flush (unix, one-shot)")
 fixed("C04", "f1ed07f", ["c04:tcp:ET:timer:stall", "c04:tcp:ET:foreign:stall", "c04:unix:ET:foreign:stall", "c04:tcp:ET:ondata:stall"],
       "ET: a direct Write interrupted by EINTR is cached although the socket stays writable; no edge follows and the backlog never drains (shim phase, profile eintr-first)")
 
@@ -57,6 +61,8 @@ fixed("C02", "323c961", ["c02:udp:%s:sync:%s:datagrams-not-delivered" % (m, e) f
       "UDP listener in ET/ONESHOT: burst of datagrams, only the first is read (read loop stops after a short read; a datagram read is always short)")
 fixed("C02", "b687757", ["c02:udp:%s:async:%s:datagram-content" % (m, e) for m in ("ET", "ONESHOT") for e in ("goroutine", "pool", "default")],
       "AsyncRead never restores the read buffer length after a callback: a datagram larger than an earlier one is truncated")
+fixed("C02", "837e29e", ["c02:fullclose:%s:%s:unread-data-dropped" % (m, a) for m in ("LT", "ET", "ONESHOT") for a in ("sync", "async")],
+      "unix socket: the peer writes and then closes; EPOLLHUP arrives with the data still unread and the connection is closed at once, dropping what the read-times-per-loop limit (or a running asynchronous read) had not consumed yet (pattern fullclose)")
 fixed("C02", "e30dbb9", ["c02:*:ONESHOT:*:read-stall (seen as undecided stalls in C04/C01 sweeps)"],
       "Start() sets Engine.isOneshot after launching the pollers; a poller scheduled early runs with one-shot handling off and never re-arms a descriptor after its first event")
 fixed("C02", "bd4926b", ["c02:halfclose:%s:%s:unread-data-dropped" % (m, a) for m, a in (("LT", "sync"), ("LT", "async"), ("ONESHOT", "sync"), ("ONESHOT", "async"), ("ET", "async"))],
